@@ -40,6 +40,9 @@ def obligations(tier):
     p = dict(base, crit="finished", crit_n=2, inject_max=5, max_fail=0)
     obs.append(Ob("C12.d[exception-injected]", "props.c01:h_loop", p, bounds=dict(W=2, T=2, R=1, K=1, injected_at_call="1..5"),
                   goals=("end", "exception-injected"), split=(("inject_at", (0, 1, 2, 3, 4)),), budget_s=2400))
+    p = dict(base, crit="finished", crit_n=3, T=3, backend_fault_max=3, max_fail=0, decisions=["CONTINUE", "STOP"])
+    obs.append(Ob("C12.d[backend-fault-injected]", "props.c01:h_loop", p, bounds=dict(W=2, T=3, R=1, K=1, failing_schedule_call="1..3"),
+                  goals=("end", "backend-fault-injected"), split=(("fault_at", (0, 1, 2)),), budget_s=2400))
     if not quick:
         for crit in ("finished", "started"):
             p = dict(base, crit=crit, R=2, W=2, T=2)
